@@ -895,10 +895,11 @@ func driveCLI(c *mon.Ctx, i int, b []byte) {
 func run(c *mon.Ctx) {
 	ctx = c
 	c.Rule("hostile inputs derived from well-formed seeds of every format (SCTE-35 sections, PMT / PAT payloads, PES starts, EBPs, PMT descriptors, 188-byte packets, packet streams) by truncation at every point, special values / +-1 in every byte (which covers every length field), bit flips, multi-byte corruption, splices and random strings; every decoding entry point of the format is called on each, and every object returned without error is queried through all getters found by reflection, printed and re-encoded. distinct non-trivial = distinct (entry point, outcome, input length class, mutator)")
-	c.Assume("Go's run-time bounds / nil / allocation checks are the memory-safety sanitizer (the library has no cgo or unsafe); bounded means: heap in use stays under 512 MiB and one call uses under 10 s of process CPU time (watchdog in every child; the input is persisted before the call); inputs are at most 64 KiB")
+	c.Assume("Go's run-time bounds / nil / allocation checks are the memory-safety sanitizer (the library has no cgo or unsafe); bounded means: heap in use stays under 512 MiB and one call uses under 10 s of process CPU time (watchdog in every child; the input is persisted before the call); inputs are at most 64 KiB (66 000 bytes for sections whose descriptor loop is as long as 16 bits can say)")
 	c.Watchdog(512<<20, 10*time.Second)
 	c.Floor("outcome.returned", 10000)
 	c.Floor("long_sections.driven", 300)
+	c.Floor("descriptor_cut.driven", 1500)
 	c.Floor("cost_scaling.comparisons", 16)
 	c.Floor("input.front_of_a_larger_buffer", 5000)
 
@@ -1238,6 +1239,49 @@ func run(c *mon.Ctx) {
 		}
 		c.Count("long_sections.driven")
 		driveSCTE35(r.Slack(b))
+		if target >= 65536-50 {
+			// the same with descriptor_loop_length at (and next to) the largest value 16 bits can say, the bytes
+			// reaching to or past the end of that loop: the last descriptor crosses it
+			full := sg.Payload()
+			if len(full) > 66000 {
+				full = full[:66000]
+			}
+			cmdLen := int(full[12]&0x0f)<<8 | int(full[13])
+			if at := 1 + 14 + cmdLen; at+2 <= len(full) {
+				for _, v := range []uint16{0xffff, 0xfffe, 0xfffd, 0xff00} {
+					m := append([]byte{}, full...)
+					m[at], m[at+1] = byte(v>>8), byte(v)
+					curMut = "long-section+loop-length-at-the-16-bit-maximum"
+					driveSCTE35(m)
+				}
+			}
+		}
+	})
+	// ---- segmentation descriptors cut short inside a section that is consistent on the outside (descriptor_length
+	// one to three bytes less than the descriptor needs, for every shape: sub-segment fields, UPID, MID, components):
+	// decoded, printed, re-encoded; the caller's buffer stays what it was
+	c.Stream("scte35-descriptor-cut", c.N(3000, 600000), func(i int, r *gen.Rand) {
+		sg := ref.GenSig(r, false)
+		for len(sg.Descs) == 0 {
+			sg.Descs = append(sg.Descs, ref.GenSegDesc(r, false))
+		}
+		j := r.Intn(len(sg.Descs))
+		d := sg.Descs[j]
+		if r.Bool() {
+			d.Cancel, d.Type, d.HasSub = false, r.PickByte([]byte{0x34, 0x36}), true
+			if len(d.UPID) == 0 && d.UPIDType != 0x0d {
+				d.UPIDType, d.UPID = 0x09, r.Bytes(1+r.Intn(12))
+			}
+		}
+		enc := d.Enc()
+		cut := 1 + r.Intn(3)
+		if len(enc)-cut < 2+4 {
+			return
+		}
+		sg.Descs[j] = ref.SegDesc{Foreign: true, Tag: 0x02, Body: append([]byte{}, enc[2:len(enc)-cut]...)}
+		curMut = fmt.Sprintf("descriptor-cut-by-%d", cut)
+		c.Count("descriptor_cut.driven")
+		driveSCTE35(r.Slack(sg.Payload()))
 	})
 	// ---- cost grows with the size of the input, not with its square: the same kind of splice_info_section at 4 KiB
 	// and at 64 KiB (16 times as long), decoded, printed and re-encoded; the comparison is between two CPU-time
